@@ -13,6 +13,7 @@ import MC.Spec.Canon
 import MC.Model.Speech
 import MC.Model.TextCodes
 import MC.Model.Fallback
+import MC.Model.Loader
 open Lean
 
 namespace MC.Driver
@@ -314,7 +315,38 @@ def handleFallback (op : String) (req : Json) : Option Json :=
       ("lang_dir", resJ styleAlts)]
   | _ => none
 
-def handlers : List (String → Json → Option Json) := [handleVariant, handlePreproc, handlePrefs, handleNav, handleTts, handleIntent, handleHighlight, handleBrailleFinal, handleNumbers, handleRows, handleCanon, handleSpeech, handleTextCodes, handleFallback]
+def pairsOfJson (j : Json) : List (Nat × Nat) :=
+  (j.getArr?.toOption.getD #[]).toList.map fun p =>
+    let a := p.getArr?.toOption.getD #[]
+    (((a[0]?.getD Json.null).getNat?).toOption.getD 0, ((a[1]?.getD Json.null).getNat?).toOption.getD 0)
+
+def pairsToJson (l : List (Nat × Nat)) : Json := Json.arr (l.map fun (a, b) => Json.arr #[toJson a, toJson b]).toArray
+
+def lookupD (l : List (Nat × Nat)) (k d : Nat) : Nat := match l.lookup k with | some v => v | none => d
+
+def handleLoader (op : String) (req : Json) : Option Json :=
+  match op with
+  | "loader_refresh" =>
+    let fsj := (req.getObjVal? "fs").toOption.getD Json.null
+    let mt := pairsOfJson ((fsj.getObjVal? "mtime").toOption.getD Json.null)
+    let ct := pairsOfJson ((fsj.getObjVal? "content").toOption.getD Json.null)
+    let bad := ((fsj.getObjVal? "bad").toOption.getD Json.null).getArr?.toOption.getD #[] |>.toList.map fun j => j.getNat?.toOption.getD 0
+    let incl : List (Nat × List Nat) := (((fsj.getObjVal? "incl").toOption.getD Json.null).getArr?.toOption.getD #[]).toList.map fun p =>
+      let a := p.getArr?.toOption.getD #[]
+      (((a[0]?.getD Json.null).getNat?).toOption.getD 0, ((a[1]?.getD Json.null).getArr?.toOption.getD #[]).toList.map fun j => j.getNat?.toOption.getD 0)
+    let fs : MC.Loader.FS := { content := fun p => lookupD ct p 0, mtime := fun p => lookupD mt p 0, good := fun p => !bad.contains p,
+                               incl := fun p => match incl.lookup p with | some l => l | none => [p] }
+    let cj := (req.getObjVal? "cell").toOption.getD Json.null
+    let c : MC.Loader.Cell := ⟨pairsOfJson ((cj.getObjVal? "files").toOption.getD Json.null), pairsOfJson ((cj.getObjVal? "data").toOption.getD Json.null)⟩
+    let k : MC.Loader.Kind := match getStr req "kind" with | "rules" => .rules | "uniShort" => .uniShort | "defs" => .defs | _ => .uniFull
+    let pref := ((req.getObjVal? "pref").toOption.bind (·.getNat?.toOption)).getD 0
+    let ignore := ((req.getObjVal? "ignore").toOption.bind (·.getBool?.toOption)).getD true
+    let needs := MC.Loader.needsLoad k c pref ignore fs
+    let r := MC.Loader.refresh k c pref ignore fs
+    some <| okJ <| Json.mkObj [("cell", Json.mkObj [("files", pairsToJson r.1.files), ("data", pairsToJson r.1.data)]), ("ok", toJson r.2), ("needs", toJson needs)]
+  | _ => none
+
+def handlers : List (String → Json → Option Json) := [handleVariant, handlePreproc, handlePrefs, handleNav, handleTts, handleIntent, handleHighlight, handleBrailleFinal, handleNumbers, handleRows, handleCanon, handleSpeech, handleTextCodes, handleFallback, handleLoader]
 
 def handle (req : Json) : Json :=
   let op := getStr req "op"
